@@ -566,6 +566,11 @@ def make_time():
 
 # ---------------------------------------------------------------- fake socket / selector
 
+def os_strerror(e):
+    import os as _os
+    return _os.strerror(e)
+
+
 class FakeSock(_Named):
     def __init__(self, *a, **k):
         self._name("sock")
@@ -574,7 +579,8 @@ class FakeSock(_Named):
         self.sent = bytearray()            # bytes accepted by send()
         self.write_plan = None             # list of maximum sizes accepted by successive send() calls
         self.closed = False
-        self.refused = False               # connect refused: send raises ECONNREFUSED
+        self.refused = False               # connect fails: send / connect raise OSError(refused_errno)
+        self.refused_errno = errno.ECONNREFUSED
         self.listening = False
         self.backlog = collections.deque()
         self.blocked_writes = 0            # number of send() calls that raise BlockingIOError first
@@ -608,14 +614,14 @@ class FakeSock(_Named):
     def connect(self, addr):
         cur_sched().yield_op(("op", self, "connect"))
         if self.refused:
-            raise ConnectionRefusedError(errno.ECONNREFUSED, "Connection refused")
+            raise OSError(self.refused_errno, os_strerror(self.refused_errno))
 
     def send(self, data):
         cur_sched().yield_op(("op", self, "send"))
         if self.closed:
             raise OSError(errno.EBADF, "Bad file descriptor")
         if self.refused:
-            raise ConnectionRefusedError(errno.ECONNREFUSED, "Connection refused")
+            raise OSError(self.refused_errno, os_strerror(self.refused_errno))
         if self.reset and data:
             raise ConnectionResetError(errno.ECONNRESET, "Connection reset by peer")
         if self.blocked_writes > 0 and data:
